@@ -2,10 +2,10 @@
 from qty_common import QTY_TRUSTED
 
 CFG = dict(
-    lean_modules=["NumbatModel.Props.C05", "NumbatModel.Inst.Real"],
+    lean_modules=["NumbatModel.Props.C05", "NumbatModel.Inst.Real", "NumbatModel.Oblig.UnitTable"],
     driver="drv_c05",
     harness="c05",
-    gens=[],
+    gens=["gen_units:generate"],
     level="proof",
     trusted_base=QTY_TRUSTED + [
         "the unit registry (HashMap of derived units with base representations) is modelled as the unit table plus the "
